@@ -9,6 +9,15 @@ THEOREMS = ["C07.accumulator_exact", "C07.bias_scale_necessary", "C07.dot_pertur
 
 
 def gen(rng, i):
+    if i % 11 == 7:
+        # operators that copy integers (same scale in and out) feeding a CONCATENATION of operands with different ranges, 16-bit
+        # activations, small magnitudes: every operand must be requantized to the output's scale
+        mb, info = gm.gen_model(rng, n_ops=rng.randint(2, 4), n_subgraphs=1, p_unsupported=0.0, alias_sig=0.0, bool_mask=0.0,
+                                kinds=["RESHAPE", "TRANSPOSE", "STRIDED_SLICE", "CONCATENATION", "CONCATENATION"], const_kinds=gm.BENIGN_KINDS)
+        data = gm.random_inputs(mb, rng, n=1, scale=rng.choice([1e-4, 1e-4, 1.0]), spread=True)
+        cfg = pl.UNIFORM[rng.choice(["a16w8", "a16w8", "a8w8"])]
+        cmds = [{"k": "add", "regex": ".*", "operation": "*", "cfg": cfg, "alg": "min_max_uniform_quantize"}]
+        return fp.Case(mb, info, cmds=cmds, data=data, desc=[("requant-chain", cfg["act"]["bits"])])
     if i % 7 == 5:
         # tied constants (shared weights / one bias tensor shared by operators whose inputs have different ranges)
         mb, info = gm.gen_tied(rng, shared_bias=0.6)
@@ -18,8 +27,13 @@ def gen(rng, i):
         return fp.Case(mb, info, cmds=cmds, data=data, desc=[("tied", cfg["act"]["bits"], cfg["weight"]["bits"])])
     mb, info = gm.gen_model(rng, n_ops=rng.randint(1, 4), n_subgraphs=1, p_unsupported=0.1, alias_sig=0.0,
                              const_kinds=gm.BENIGN_KINDS if i % 6 else None)
-    data = gm.random_inputs(mb, rng, n=1, scale=1.0)
     cfg = pl.UNIFORM[rng.choice(["a8w8", "a8w8", "a8sw8t", "a16w8", "a8w4", "a16w4", "a8sw4t"])]
+    # 16-bit activations resolve magnitudes of 1e-4 with scales below 1e-8: small numbers are where tolerant comparisons go wrong
+    scales = [1.0, 1.0, 1e-4, 1e-4, 3e-3, 30.0] if cfg["act"]["bits"] == 16 else [1.0] * 7 + [1e-4, 3e-3, 30.0]
+    if i % 6 == 0:
+        scales = [1.0]   # the degenerate constant kinds (1e-6 weights, dead channels) are exercised at ordinary data magnitudes only:
+        #                  together with 1e-4 data the kernels' fixed-point multipliers underflow (a limit of the runtime, cf. D25)
+    data = gm.random_inputs(mb, rng, n=1, scale=rng.choice(scales))
     cmds = [{"k": "add", "regex": ".*", "operation": "*", "cfg": cfg, "alg": "min_max_uniform_quantize"}]
     return fp.Case(mb, info, cmds=cmds, data=data, desc=[("*", cfg["act"]["bits"], cfg["weight"]["bits"])])
 
